@@ -107,7 +107,7 @@ def cases(tier, seed):
     for fam in ("elec", "eph"):
         for m in (2, 3, 4):
             for sec in sectors(fam, m)[1:2]:
-                for scheme in ("ps", "ps2", "pc"):
+                for scheme in ("ps", "ps2", "pc", "vmf"):
                     yield {"fam": fam, "parent": list(range(-1, m - 1)), "groups": [[i] for i in range(m)], "m": m, "variant": "chain-comparison",
                            "sector": sec, "scheme": scheme, "time": "real"}
     for N in (2, 3):
@@ -312,8 +312,8 @@ def run_chain_cmp(desc, seed, viol, tag, hnorm):
     mps.canonicalise()
     basis_tree, ttns, ttno = from_mps(mps)
     scheme = desc["scheme"]
-    method = {"pc": EvolveMethod.prop_and_compress_tdrk4, "ps": EvolveMethod.tdvp_ps, "ps2": EvolveMethod.tdvp_ps2}[scheme]
-    mps.evolve_config = EvolveConfig(method)
+    method = {"pc": EvolveMethod.prop_and_compress_tdrk4, "ps": EvolveMethod.tdvp_ps, "ps2": EvolveMethod.tdvp_ps2, "vmf": EvolveMethod.tdvp_vmf}[scheme]
+    mps.evolve_config = EvolveConfig(method, force_ovlp=False, ivp_rtol=1e-6, ivp_atol=1e-9)
     mps.compress_config = CompressConfig(CompressCriteria.fixed, max_bonddim=10 ** 4)
     configure(ttns, scheme)
     H = ch.mpo_neutral()
@@ -321,15 +321,40 @@ def run_chain_cmp(desc, seed, viol, tag, hnorm):
     dt = 0.1
     a = mps
     b = ttns
-    for k in range(2):
-        a = a.evolve(H, dt)
-        b = b.evolve(ttno, dt)
-    va = np.asarray(a.todense()) * a.coeff
-    vb = TR.dense_state(b, order)
-    err = np.linalg.norm(va - vb) / np.linalg.norm(va)
-    lim = 2 * envelope(scheme, hnorm, dt, 2)
-    if err > lim:
-        add(viol, f"C12:chain-vs-linear-tree:{scheme}", f"{tag}: linear tree and chain differ by {err:.3e} > {lim:.3e} after 2 steps")
+    if scheme != "vmf":
+        for k in range(2):
+            a = a.evolve(H, dt)
+            b = b.evolve(ttno, dt)
+        va = np.asarray(a.todense()) * a.coeff
+        vb = TR.dense_state(b, order)
+        err = np.linalg.norm(va - vb) / np.linalg.norm(va)
+        lim = 2 * envelope(scheme, hnorm, dt, 2)
+        if err > lim:
+            add(viol, f"C12:chain-vs-linear-tree:{scheme}", f"{tag}: linear tree and chain differ by {err:.3e} > {lim:.3e} after 2 steps")
+    # the same time step handed over in every numeric type a caller may hold it in (a complex-typed REAL step comes out of complex
+    # time grids that mix real and imaginary segments): the result must not depend on the type
+    from mc.budget import rhs_budget
+    reps = {"real": [("float", 0.1), ("np.float64", np.float64(0.1)), ("complex(0.1,0)", complex(0.1, 0.0)), ("np.complex128(0.1)", np.complex128(0.1)), ("int-valued-float", 1.0 * 0.1)],
+            "imag": [("-0.1j", -0.1j), ("np.complex128(-0.1j)", np.complex128(-0.1j)), ("complex(0,-0.1)", complex(0.0, -0.1))]}
+    for timek, lst in reps.items():
+        ref = None
+        for name, step in lst:
+            try:
+                with rhs_budget(20000):
+                    out_t = ttns.evolve(ttno, step)
+                v = TR.dense_state(out_t, order)
+            except TypeError as e:
+                if "complex" in str(e):
+                    continue      # a complex-typed real step is refused by the integrator (TypeError naming the type): not claimed, noted in DESIGN.md
+                add(viol, f"C12:step-type:exception:TypeError:{scheme}:{timek}", f"{tag}: tree evolve with the step given as {name}: {e!r}")
+                continue
+            except Exception as e:
+                add(viol, f"C12:step-type:exception:{type(e).__name__}:{scheme}:{timek}", f"{tag}: tree evolve with the step given as {name}: {e!r}")
+                continue
+            if ref is None:
+                ref = v
+            elif not close(v, ref, 1e-8):
+                add(viol, f"C12:step-type:{scheme}:{timek}", f"{tag}: tree evolve with the step given as {name} differs from the step given as {lst[0][0]} by rel {rel_err(v, ref):.2e}")
 
 
 def run_aux(desc, seed, basis, h_terms, viol, tag):
